@@ -367,6 +367,14 @@ impl ToCoq for Morx {
     }
 }
 
+/// `feat` is NOT a field of the Coq `font` record: it is printed as a term of type
+/// `list (N * list N * bool)` = (feature type, setting selectors, exclusive) — Model/MorxFeat.v `feat_table`.
+impl ToCoq for Feat {
+    fn coq(&self) -> String {
+        list(&self.names, |nm| format!("({}, {}, {})", n(nm.feature), glyphs(&nm.settings), b(nm.exclusive)))
+    }
+}
+
 impl ToCoq for FontSpec {
     fn coq(&self) -> String {
         format!(
